@@ -306,4 +306,32 @@ def r66(F):
     return r
 
 
-RULES = [r18, r19, r20, r66]
+def r66s(F):
+    r = RuleResult("R66s", "a list is refused only for an element nothing admits",
+                   "is_list_subset_cached answers false only out of its element loop (an element of one side that no candidate of the other "
+                   "admits); no exit before the loop answers false -- list shapes hold one entry per element, not a set of types, so "
+                   "their lengths say nothing about containment (`[0, \"\"]` admits `[1, 2, 3]`)", floor=1)
+    fn = F.fn("ucglib::ast::is_list_subset_cached")
+    loops = cfg.natural_loops(fn)
+    need(loops, "is_list_subset_cached has no loop")
+    # the outer loop: the one whose header dominates the others
+    heads = sorted(loops, key=lambda h: -len(loops[h]))
+    h = heads[0]
+    pre = cfg.reachable(fn, 0, removed={h})
+    falses = [b for b, j, pl, rv, m in fn.assigns() if b in pre and pl["l"] == 0 and not pl["p"] and rv["k"] == "use"
+              and rv["ops"][0].get("int") == "0" and rv["ops"][0].get("ty") == "bool"]
+    # a false held in a local that is returned without entering the loop
+    rets = [b for b in pre if fn.term(b)["k"] == "return"]
+    cps = util.copies_of(fn, 0, allow_not=False)
+    for b, j, pl, rv, m in fn.assigns():
+        if b in pre and not pl["p"] and pl["l"] in cps and pl["l"] != 0 and rv["k"] == "use" and rv["ops"][0].get("int") == "0" and rv["ops"][0].get("ty") == "bool":
+            if any(cfg.reaches(fn, b, rb, removed={h}) for rb in rets):
+                falses.append(b)
+    r.inst("is_list_subset:false-only-from-elements", fn.where(falses[0]) if falses else fn.where(h), not falses,
+           "every `false` comes out of the element loop" if not falses else
+           "is_list_subset_cached returns false before looking at the elements (a length comparison?): conforming lists of a different "
+           "length are rejected")
+    return r
+
+
+RULES = [r18, r19, r20, r66, r66s]
